@@ -23,7 +23,6 @@ from engines import sqlfront as sf
 from engines import sqlrules as sr
 from engines.common import AnalysisError, Ctx
 from engines.sqlast import N, text
-from engines.sqleval import ev
 
 META = dict(
     category='other',
@@ -39,139 +38,131 @@ TERMINAL = ['Success', 'Failed', 'Error', 'Cancelled']
 
 
 LOCKS = ('LOCK IN SHARE MODE', 'FOR SHARE', 'FOR UPDATE')
-CLOSURE = 'job_group_self_and_ancestors'
-CATS = ('n_completed', 'n_succeeded', 'n_failed', 'n_cancelled')
+CLOSURE = jg.CLOSURE
+CATS = jg.CATS
 WANT_DELTA = {'Success': (1, 1, 0, 0), 'Failed': (1, 0, 1, 0), 'Error': (1, 0, 1, 0), 'Cancelled': (1, 0, 0, 1)}
-STATES = ['Pending', 'Ready', 'Creating', 'Running', 'Success', 'Failed', 'Error', 'Cancelled']
 
 
-def _closure_rows(batch: int, parent: Dict[int, Optional[int]]) -> List[Dict[str, int]]:
-    out = []
-    for g in parent:
-        a, lvl = g, 0
-        while a is not None:
-            out.append(dict(batch_id=batch, job_group_id=g, ancestor_id=a, level=lvl))
-            a, lvl = parent[a], lvl + 1
-    return out
+def _show(v: object) -> str:
+    return 'NULL' if v is None else (v.name if isinstance(v, jg.Sym) else (repr(v) if isinstance(v, jg.Lin) else str(v)))
 
 
 def r123(ctx: Ctx, prog: sf.SqlProgram) -> None:
     """COMPOSITE effect of the effective mark_job_complete (mark_job_group_complete and any other callee inlined) on the tally table,
-    job_groups and batches, by interpretation over a micro-world (engines/jobgraphfacts.py): batch 1 with groups 0 <- 1 <- 2 and
-    0 <- 3 (the job is in group 2), batch 2 with look-alike rows; every consistent combination of `this is / is not the last
-    unfinished job` along the ancestor chain; every terminal new_state; every prior state of the job and attempt-id relation.
-    Required with the job's own terminal transition, and only then: the four tallies of group 2, 1 and 0 (and of no other row) move by
-    the partition table; each of these groups is marked complete (state, time_completed) iff its new n_completed equals its own
-    n_jobs; the batch row likewise against the root tally; everything else is untouched."""
+    job_groups and batches, by ABSTRACT execution (engines/jobgraphfacts.py).  Roles: the tally / job_groups rows of the job's own group,
+    of a GENERIC self-or-ancestor of it (the cursor loop is checked to be the canonical walk over all closure rows of the group and its
+    body executed once for that generic element) and of the root; the batch row.  Counters are symbolic; each group's
+    gap = n_jobs - n_completed (>= 1 before the call) is split {1, >= 2} exactly where the code compares.  Which rows a statement
+    touches is decided from the normal form of its conditions.  Required with the job's own terminal transition, and only then:
+    every tally row of the chain moves by the partition table of new_state; a group is marked complete (state, time_completed) iff
+    its gap was 1, i.e. its own n_completed AFTER counting this job equals its own n_jobs; the batch row likewise against the root."""
     r = prog.routine('mark_job_complete')
     params = jg.routine_params(prog, 'mark_job_complete')
     ctx.need({'in_batch_id', 'in_job_id', 'new_state', 'new_timestamp'} <= set(params), f'mark_job_complete: parameters {params}')
-    tabs = ['jobs', 'job_parents', 'job_groups', TALLY, 'batches', CLOSURE]
-    jg.need_no_trigger_feedback(prog, tabs)
-    schema = jg.full_schema(prog)
+    jg.need_no_trigger_feedback(prog, ['jobs', 'job_parents', 'job_groups', TALLY, 'batches', CLOSURE])
     cons = f'{r.file}::mark_job_complete'
-    tally_writers = [st for rr in ('mark_job_complete', 'mark_job_group_complete') if rr in prog.routines for st in sf.all_statements(prog.routines[rr].ast.body)
-                     if st.kind == 'update' and TALLY in [t.lower() for t, _ in sf.written_tables(st)]]
-    line = r.line_of(tally_writers[0]) if tally_writers and tally_writers[0] in list(sf.all_statements(r.ast.body)) else r.line
-    parent1 = {0: None, 1: 0, 2: 1, 3: 0}
-    parent2 = {0: None, 2: 0}
-    base_tally = {0: (7, 5, 1, 1), 1: (4, 3, 1, 0), 2: (2, 2, 0, 0), 3: (1, 1, 0, 0)}
-
-    def world(own_state, own_attempt, gaps):
-        g = dict(gaps)
-        g[3] = 1
-        jobs = [dict(batch_id=1, job_id=5, state=own_state, n_pending_parents=0, cancelled=0, always_run=0, attempt_id=own_attempt, job_group_id=2),
-                dict(batch_id=2, job_id=5, state='Running', n_pending_parents=0, cancelled=0, always_run=0, attempt_id='a', job_group_id=2)]
-        jgs, tal = [], []
-        for gid in (0, 1, 2, 3):
-            jgs.append(dict(batch_id=1, job_group_id=gid, state='running', n_jobs=base_tally[gid][0] + g[gid], time_completed=None))
-            tal.append(dict(id=1, job_group_id=gid, **dict(zip(CATS, base_tally[gid]))))
-        for gid in (0, 2):
-            jgs.append(dict(batch_id=2, job_group_id=gid, state='running', n_jobs=base_tally[gid][0] + 1, time_completed=None))
-            tal.append(dict(id=2, job_group_id=gid, **dict(zip(CATS, base_tally[gid]))))
-        rows = {'jobs': jobs, 'job_parents': [], 'job_groups': jgs, TALLY: tal,
-                'batches': [dict(id=1, state='running', n_jobs=base_tally[0][0] + g[0], time_completed=None), dict(id=2, state='running', n_jobs=base_tally[0][0] + 1, time_completed=None)],
-                CLOSURE: _closure_rows(1, parent1) + _closure_rows(2, parent2)}
-        return jg.World(schema, rows)
-
-    gap_sets = [{2: 1, 1: 1, 0: 1}, {2: 1, 1: 1, 0: 2}, {2: 1, 1: 2, 0: 2}, {2: 2, 1: 2, 0: 2}, {2: 1, 1: 2, 0: 3}]
-    grid = [(os_, 'a', gs) for os_ in STATES for gs in gap_sets] + [(os_, at, gap_sets[0]) for os_ in STATES for at in (None, 'b')]
-    fails: Dict[str, str] = {}
-    n_cases = n_trans = 0
-    TS = 1000
-    for ns in TERMINAL:
-        for own_state, own_attempt, gaps in grid:
-            w = world(own_state, own_attempt, gaps)
-            before = w.snapshot()
-            it = jg.Interp(prog, w)
-            it.call('mark_job_complete', {'in_batch_id': 1, 'in_job_id': 5, 'new_state': ns, 'in_attempt_id': 'a', 'new_timestamp': TS})
-            n_cases += 1
-            after = w.rows
-            for t_ in (TALLY, 'job_groups', 'batches'):
-                for row in after[t_]:
-                    for col, v in row.items():
-                        ctx.need(v is not jg.UNK, f'mark_job_complete: {t_}.{col} receives a value the model cannot determine')
-            transition = before['jobs'][0]['state'] != after['jobs'][0]['state'] and after['jobs'][0]['state'] in TERMINAL
-            hist = (f'job of group 2 (ancestors 1, 0) in state {own_state}, attempt_id {"matching" if own_attempt == "a" else ("NULL" if own_attempt is None else "of another attempt")}, reported {ns}; '
-                    f'unfinished jobs before the call: group 2: {gaps[2]}, group 1: {gaps[1]}, group 0 / batch: {gaps[0]}')
-            tb = {(x['id'], x['job_group_id']): x for x in before[TALLY]}
-            ta = {(x['id'], x['job_group_id']): x for x in after[TALLY]}
-            gb = {(x['batch_id'], x['job_group_id']): x for x in before['job_groups']}
-            ga = {(x['batch_id'], x['job_group_id']): x for x in after['job_groups']}
-            bb = {x['id']: x for x in before['batches']}
-            ba = {x['id']: x for x in after['batches']}
-            path = [(1, 2), (1, 1), (1, 0)] if transition else []
-            if transition:
-                n_trans += 1
-            # tallies
-            for key in tb:
-                delta = tuple(ta[key][c_] - tb[key][c_] for c_ in CATS)
-                if key in path:
-                    if delta[0] != 1:
-                        fails.setdefault('fanout', f'{hist}: n_completed of group {key[1]} changes by {delta[0]}, expected +1 (the job\'s own group and every ancestor count it exactly once)')
-                    if delta != WANT_DELTA[ns]:
-                        fails.setdefault(f'partition {ns}', f'{hist}: (n_completed, n_succeeded, n_failed, n_cancelled) of group {key[1]} change by {delta}, expected {WANT_DELTA[ns]}')
-                elif any(delta):
-                    if transition:
-                        fails.setdefault('fanout', f'{hist}: tallies of group {key[1]} of batch {key[0]}, which is not the job\'s group or an ancestor of it, change by {delta}')
-                    else:
-                        fails.setdefault('transition', f'{hist}: the job makes no terminal transition in this call, yet the tallies of group {key[1]} of batch {key[0]} change by {delta}')
-            # group completion
-            for key in gb:
-                chg = {c_: (gb[key][c_], ga[key][c_]) for c_ in ('state', 'time_completed', 'n_jobs') if gb[key][c_] != ga[key][c_]}
-                if key in path:
-                    done = ta[key]['n_completed'] == ga[key]['n_jobs'] and tb[key]['n_completed'] + 1 == gb[key]['n_jobs']
-                    really_done = tb[key]['n_completed'] + 1 == gb[key]['n_jobs']
-                    want = {'state': ('running', 'complete'), 'time_completed': (None, TS)} if really_done else {}
-                    if chg != want:
-                        fails.setdefault('group completion', f'{hist}: group {key[1]} (n_jobs {gb[key]["n_jobs"]}, n_completed {tb[key]["n_completed"]} before) changes {chg or "nothing"}; expected '
-                                         f'{want or "no change (it still has unfinished jobs)"} - a group is complete exactly when its own n_completed, after counting this job, equals its own n_jobs, '
-                                         'and every group on the ancestor chain must be examined')
-                elif chg:
-                    fails.setdefault('others' if transition else 'transition', f'{hist}: job_groups row of group {key[1]} of batch {key[0]}, '
-                                     f'{"which is not on the job\'s ancestor chain" if transition else "although the job makes no terminal transition in this call"}, changes {chg}')
-            for key in bb:
-                chg = {c_: (bb[key][c_], ba[key][c_]) for c_ in ('state', 'time_completed', 'n_jobs') if bb[key][c_] != ba[key][c_]}
-                if key == 1 and transition:
-                    really_done = tb[(1, 0)]['n_completed'] + 1 == bb[1]['n_jobs']
-                    want = {'state': ('running', 'complete'), 'time_completed': (None, TS)} if really_done else {}
-                    if chg != want:
-                        fails.setdefault('batch completion', f'{hist}: batch row (n_jobs {bb[1]["n_jobs"]}, root n_completed {tb[(1, 0)]["n_completed"]} before) changes {chg or "nothing"}; expected '
-                                         f'{want or "no change"} - the batch is complete exactly when the root tally, after counting this job, equals batches.n_jobs')
-                elif chg:
-                    fails.setdefault('others' if transition else 'transition', f'{hist}: batches row {key} changes {chg}')
-    ctx.need(n_trans > 0, 'mark_job_complete: no modelled call makes the job\'s own terminal transition')
-    detail = {'cases': n_cases, 'with_transition': n_trans}
-    ctx.check('fanout' not in fails, 'R1', f'{cons}::tally update::ancestor fan-out', fails.get('fanout', ''), r.file, line, detail=detail)
-    for ns in TERMINAL:
-        ctx.check(f'partition {ns}' not in fails, 'R2', f'{cons}::tally update::partition {ns}', fails.get(f'partition {ns}', ''), r.file, line, detail=detail)
+    scn, syms = jg.mark_job_complete_scenario(prog, groups=True)
     mg = prog.routines.get('mark_job_group_complete')
     gfile, gline = (mg.file, mg.line) if mg is not None else (r.file, r.line)
-    ctx.check('group completion' not in fails, 'R3', f'{cons}::group completion', fails.get('group completion', ''), gfile, gline, detail=detail)
-    ctx.check('batch completion' not in fails, 'R3', f'{cons}::batch completion', fails.get('batch completion', ''), r.file, r.line, detail=detail)
-    ctx.check('others' not in fails, 'R3', f'{cons}::other groups untouched', fails.get('others', ''), r.file, r.line, detail=detail)
-    ctx.check('transition' not in fails, 'R3', f'{cons}::only with the transition', fails.get('transition', ''), r.file, r.line, detail=detail)
-    ctx.unit('completion_model_cases', n_cases)
+
+    def where(st: N) -> Tuple[str, int]:
+        for rr in (r, mg):
+            if rr is not None and any(st is x or (x.kind == 'declare_cursor' and x.select is st) for x in sf.all_statements(rr.ast.body)):
+                return rr.file, rr.line_of(st) if hasattr(st, 'pos') else rr.line
+        return r.file, r.line
+
+    def run(case: jg.Case):
+        fails: Dict[str, Tuple[str, str, int]] = {}
+        try:
+            ex = jg.AbsExec(prog, scn, case)
+            ex.tolerate = {'jobs'}
+            ex.call('mark_job_complete', {'in_batch_id': syms['B'], 'in_job_id': syms['J'], 'new_state': jg.EnumVal('new_state'), 'in_attempt_id': syms['A'], 'new_timestamp': jg.Sym('new_timestamp')})
+        except jg.Mismatch as mm:
+            key = {TALLY: 'fanout', 'job_groups': 'group completion', 'batches': 'batch completion'}.get(mm.table)
+            if key is None:
+                raise AnalysisError(f'mark_job_complete: {mm.what}')
+            f_, l_ = where(mm.st)
+            return {key: (f'`{text(mm.st)[:100]}`: {mm.what}', f_, l_)}, False, True
+        E = ex.E
+        trans, pre, post = jg.own_transition(ex)
+        TS = jg.Sym('new_timestamp')
+
+        def unchanged_groups(tag: str) -> bool:
+            g = ex.rows[('job_groups', tag)]
+            return E.res(g['state']) == 'running' and g['time_completed'] is None and E.eq(g['n_jobs'], scn.rows[('job_groups', tag)]['n_jobs']) == 1
+        if not trans:
+            for t in jg.ANC_TAGS:
+                if any(not E.eq(ex.rows[(TALLY, t)][c_], scn.rows[(TALLY, t)][c_]) for c_ in CATS) or not unchanged_groups(t):
+                    fails['transition'] = (f'the job makes no terminal transition in this call (its state stays {post}), yet tallies / job_groups rows of its group chain change: a repeated or rejected completion '
+                                           'message is counted again', r.file, r.line)
+            b = ex.rows[('batches', 'b')]
+            if E.res(b['state']) != 'running' or b['time_completed'] is not None:
+                fails['transition'] = (f'the job makes no terminal transition in this call, yet the batch row changes to state {E.res(b["state"])}', r.file, r.line)
+            return fails, False, False
+        ns = E.res(jg.EnumVal('new_state'))
+        for t in jg.ANC_TAGS:
+            delta = []
+            for c_ in CATS:
+                d = jg.lin_of(ex.rows[(TALLY, t)][c_])
+                ctx.need(d is not None, f'mark_job_complete: {TALLY}.{c_} receives a value the abstraction cannot determine')
+                d = case.norm(d - scn.rows[(TALLY, t)][c_])
+                delta.append(int(d.const) if d.is_const() else repr(d))
+            who = {'own': 'the job\'s own group', 'anc': 'a self-or-ancestor group of the job\'s group', 'root': 'the root group'}[t]
+            if delta[0] != 1:
+                fails.setdefault('fanout', (f'n_completed of {who} changes by {delta[0]}, expected +1 (the job\'s own group and every ancestor count the job exactly once)', r.file, r.line))
+            if tuple(delta) != WANT_DELTA[ns]:
+                fails.setdefault(f'partition {ns}', (f'(n_completed, n_succeeded, n_failed, n_cancelled) of {who} change by {tuple(delta)}, expected {WANT_DELTA[ns]}', r.file, r.line))
+        g = ex.rows[('job_groups', 'anc')]
+        last = E.eq(jg.Lin({'gap_anc': 1}, 0), 1) == 1
+        got = (E.res(g['state']), _show(E.res(g['time_completed'])))
+        want = ('complete', 'new_timestamp') if last else ('running', 'NULL')
+        if got != want or not E.eq(g['n_jobs'], scn.rows[('job_groups', 'anc')]['n_jobs']):
+            fails['group completion'] = (f'a self-or-ancestor group of the finished job\'s group, which had {"exactly one unfinished job (this one)" if last else "at least two unfinished jobs"} before the call, ends with '
+                                         f'(state, time_completed) = {got}, expected {want}: a group is complete exactly when its own n_completed, AFTER this job has been counted, equals its own n_jobs '
+                                         '(test after the increment, like with like)', gfile, gline)
+        for kind, info in ex.events:
+            if kind == 'early_leave':
+                if last or info.get('order') != 'leaf-first':
+                    fails.setdefault('group completion', (f'the walk over the self-and-ancestor groups is left early at a group that {"is complete" if last else "still has unfinished jobs"} (cursor order: {info.get("order")}): '
+                                                          'the groups after it in cursor order are never examined although they may have become complete with this job', gfile, gline))
+        if not any(k_ == 'loop' for k_, _ in ex.events) and not any(rk[0] == 'job_groups' for _, _, rk in ex.writes) and last:
+            fails.setdefault('group completion', ('no statement examines the self-and-ancestor groups of the finished job\'s group in this call', gfile, gline))
+        b = ex.rows[('batches', 'b')]
+        lastb = E.eq(jg.Lin({'gap_root': 1}, 0), 1) == 1
+        gotb = (E.res(b['state']), _show(E.res(b['time_completed'])))
+        wantb = ('complete', 'new_timestamp') if lastb else ('running', 'NULL')
+        if gotb != wantb or not E.eq(b['n_jobs'], scn.rows[('batches', 'b')]['n_jobs']):
+            fails['batch completion'] = (f'the batch, which had {"exactly one unfinished job (this one)" if lastb else "at least two unfinished jobs"} before the call, ends with (state, time_completed) = {gotb}, '
+                                         f'expected {wantb}: the batch is complete exactly when the root tally, AFTER this job has been counted, equals batches.n_jobs', r.file, r.line)
+        for t in ('own', 'root'):
+            if not unchanged_groups(t) and 'group completion' not in fails:
+                # the own / root rows are represented by the generic ancestor in the loop; a direct write to them is outside the canonical walk
+                raise AnalysisError('mark_job_complete: job_groups rows of the own / root group are written outside the ancestor walk')
+        return fails, True, False
+
+    results = jg.explore(scn.dom, run)
+    n_trans = sum(1 for _, (f_, t_, m_) in results if t_)
+    mism = any(m_ for _, (f_, t_, m_) in results)
+    ctx.need(n_trans > 0 or mism, 'mark_job_complete: no abstract case makes the job\'s own terminal transition')
+    first: Dict[str, Tuple[str, str, str, int]] = {}
+    for case, (fails, _, _) in results:
+        for k, (msg, f_, l_) in fails.items():
+            first.setdefault(k, (case.describe(), msg, f_, l_))
+    detail = {'abstract_cases': len(results), 'with_transition': n_trans}
+
+    def emit(rule: str, key: str, construct: str) -> None:
+        if key in first:
+            w, msg, f_, l_ = first[key]
+            ctx.bad(rule, construct, f'case [{w}]: {msg}', f_, l_)
+        else:
+            ctx.ok(rule, construct, detail)
+    emit('R1', 'fanout', f'{cons}::tally update::ancestor fan-out')
+    for ns in TERMINAL:
+        emit('R2', f'partition {ns}', f'{cons}::tally update::partition {ns}')
+    emit('R3', 'group completion', f'{cons}::group completion')
+    emit('R3', 'batch completion', f'{cons}::batch completion')
+    emit('R3', 'transition', f'{cons}::only with the transition')
+    ctx.unit('completion_abstract_cases', len(results))
 
 
 def r3_locks(ctx: Ctx, prog: sf.SqlProgram) -> None:
@@ -207,74 +198,85 @@ def r3_locks(ctx: Ctx, prog: sf.SqlProgram) -> None:
 
 
 def r4(ctx: Ctx, prog: sf.SqlProgram) -> None:
-    """Re-opening, COMPOSITE effect of the effective commit_batch_update on batches / job_groups (micro-world interpretation): update 2 of
-    batch 1 stages 5 jobs (3 in group 2 below group 1, 1 in group 3, 1 in the root; two instance collections, two tokens); an uncommitted
-    update 3 and batch 2 have staging rows of their own.  Required: batch row running, time_completed NULL, n_jobs + 5; each staged group
-    running, time_completed NULL, n_jobs + the sum of ITS staging rows of THIS update; unstaged groups, other batch untouched; a second
-    call (already committed) changes nothing."""
+    """Re-opening: COMPOSITE effect of the effective commit_batch_update on the batch row and on a generic job group that has staging
+    rows for the update, by ABSTRACT execution.  NU = batch_updates.n_jobs of the update, SS = SUM(n_jobs) over the staging rows of
+    (this batch, this update, that group) are count symbols; an aggregate with any other selection / grouping is a different symbol,
+    a directly joined staging row yet another (several rows per group: inst_coll x token).  Required when this call commits the update
+    and NU >= 1: batch row (running, NULL, n_jobs + NU); group row n_jobs + SS as a normal form and, for SS >= 1, (running, NULL);
+    required otherwise (already committed, count mismatch, update without jobs): both rows unchanged."""
     r = prog.routine('commit_batch_update')
     params = jg.routine_params(prog, 'commit_batch_update')
     ctx.need({'in_batch_id', 'in_update_id'} <= set(params), f'commit_batch_update: parameters {params}')
-    tabs = ['batch_updates', 'job_groups_inst_coll_staging', 'batches', 'job_groups']
-    jg.need_no_trigger_feedback(prog, tabs)
-    schema = jg.full_schema(prog)
+    jg.need_no_trigger_feedback(prog, ['batch_updates', jg.STAGING, 'batches', 'job_groups'])
+    scn, syms = jg.commit_scenario(prog)
+    cons = f'{r.file}::commit_batch_update'
+    lines: Dict[str, int] = {}
 
-    def stg(b, u, g, ic, tok, n):
-        return dict(batch_id=b, update_id=u, job_group_id=g, inst_coll=ic, token=tok, n_jobs=n, n_ready_jobs=0, ready_cores_mcpu=0)
-    staging = [stg(1, 2, 2, 'x', 0, 2), stg(1, 2, 2, 'y', 0, 1), stg(1, 2, 1, 'x', 0, 2), stg(1, 2, 1, 'y', 0, 1), stg(1, 2, 3, 'x', 0, 1),
-               stg(1, 2, 0, 'x', 0, 3), stg(1, 2, 0, 'x', 1, 1), stg(1, 2, 0, 'y', 0, 1),
-               stg(1, 3, 1, 'x', 0, 4), stg(1, 3, 0, 'x', 0, 4), stg(2, 2, 0, 'x', 0, 1), stg(2, 2, 1, 'x', 0, 1)]
-    prior = {0: 9, 1: 4, 2: 2, 3: 1, 4: 2}
-    rows = {
-        'batch_updates': [dict(batch_id=1, update_id=1, committed=1, n_jobs=9, start_job_id=1, time_committed=1),
-                          dict(batch_id=1, update_id=2, committed=0, n_jobs=5, start_job_id=10, time_committed=None),
-                          dict(batch_id=1, update_id=3, committed=0, n_jobs=4, start_job_id=15, time_committed=None),
-                          dict(batch_id=2, update_id=2, committed=0, n_jobs=1, start_job_id=3, time_committed=None)],
-        'job_groups_inst_coll_staging': staging,
-        'batches': [dict(id=1, state='complete', n_jobs=9, time_completed=500), dict(id=2, state='complete', n_jobs=2, time_completed=500)],
-        'job_groups': [dict(batch_id=1, job_group_id=g, state='complete', n_jobs=n, time_completed=500) for g, n in prior.items()] +
-                      [dict(batch_id=2, job_group_id=g, state='complete', n_jobs=2, time_completed=500) for g in (0, 1)],
-    }
-    w = jg.World(schema, rows)
-    it = jg.Interp(prog, w)
-    it.call('commit_batch_update', {'in_batch_id': 1, 'in_update_id': 2, 'in_timestamp': 1000})
-    for t_ in ('batches', 'job_groups'):
-        for row in w.rows[t_]:
-            for col, v in row.items():
-                ctx.need(v is not jg.UNK, f'commit_batch_update: {t_}.{col} receives a value the model cannot determine')
-    ctx.need([x for x in w.rows['batch_updates'] if x['batch_id'] == 1 and x['update_id'] == 2][0]['committed'] not in (0, None), 'commit_batch_update: the modelled update is not committed by the call')
-    b1 = [x for x in w.rows['batches'] if x['id'] == 1][0]
-    okb = (b1['state'], b1['time_completed'], b1['n_jobs']) == ('running', None, 14)
-    stmts = jg.jobs_writers(it, 'batches')
-    bline = r.line
-    for _, st, t_, _n in it.writes:
-        if t_ == 'batches':
-            bline = r.line_of(st)
-    ctx.check(okb, 'R4', f'{r.file}::commit_batch_update::reopen batch', f'committing an update with 5 jobs on a complete batch of 9 leaves the batch row (state, time_completed, n_jobs) = '
-              f'({b1["state"]}, {b1["time_completed"]}, {b1["n_jobs"]}); expected (running, NULL, 14) [statements writing batches: {stmts}]', r.file, bline)
-    want = {0: 14, 1: 7, 2: 5, 3: 2}
-    bad = None
-    for x in w.rows['job_groups']:
-        got = (x['state'], x['time_completed'], x['n_jobs'])
-        if x['batch_id'] == 1 and x['job_group_id'] in want:
-            exp = ('running', None, want[x['job_group_id']])
+    def run(case: jg.Case):
+        fails: Dict[str, Tuple[str, int]] = {}
+        try:
+            ex = jg.AbsExec(prog, scn, case)
+            ex.tolerate = {'jobs'}
+            ex.call('commit_batch_update', {'in_batch_id': syms['B'], 'in_update_id': syms['U'], 'in_timestamp': jg.Sym('commit_timestamp')})
+        except jg.Mismatch as mm:
+            key = {'job_groups': 'reopen job groups', 'batches': 'reopen batch'}.get(mm.table)
+            if key is None:
+                raise AnalysisError(f'commit_batch_update: {mm.what}')
+            return {key: (f'`{text(mm.st)[:100]}`: {mm.what}', r.line_of(mm.st))}, False
+        except jg.DependsOn:
+            raise AnalysisError('commit_batch_update: control flow depends on the stored pending count (see C05)')
+        E = ex.E
+        for _, st_, rk in ex.writes:
+            lines.setdefault(rk[0], r.line_of(st_))
+        upd = ex.rows[('batch_updates', 'u')]['committed']
+        committed_now = not isinstance(upd, jg.EnumVal) and bool(E.res(upd)) and case.choice.get('committed') == 0
+        b, g = ex.rows[('batches', 'b')], ex.rows[('job_groups', 'staged')]
+        b0, g0 = scn.rows[('batches', 'b')], scn.rows[('job_groups', 'staged')]
+        for row in (b, g):
+            for col in ('state', 'n_jobs', 'time_completed'):
+                ctx.need(row[col] is not jg.UNK, f'commit_batch_update: {col} receives a value the abstraction cannot determine')
+
+        def same(row, row0) -> bool:
+            return _show(E.res(row['state'])) == _show(row0['state']) and _show(E.res(row['time_completed'])) == _show(row0['time_completed']) and E.eq(row['n_jobs'], row0['n_jobs']) == 1
+        reopening = committed_now and case.sign(jg.Lin({'NU': 1}, 0)) > 0
+        if not reopening:
+            why = 'this call does not commit the update (already committed, or the staged job count does not match)' if not committed_now else 'the committed update has no jobs'
+            if not same(b, b0):
+                fails['commit once'] = (f'{why}, yet the batch row changes to (state, time_completed, n_jobs) = ({_show(E.res(b["state"]))}, {_show(E.res(b["time_completed"]))}, {_show(b["n_jobs"])}): '
+                                        'jobs are counted twice / a finished batch is shown running for ever', lines.get('batches', r.line))
+            if not same(g, g0):
+                fails['commit once'] = (f'{why}, yet a job group row changes to (state, time_completed, n_jobs) = ({_show(E.res(g["state"]))}, {_show(E.res(g["time_completed"]))}, {_show(g["n_jobs"])})',
+                                        lines.get('job_groups', r.line))
+            return fails, False
+        gotb = (_show(E.res(b['state'])), _show(E.res(b['time_completed'])))
+        if gotb != ('running', 'NULL') or not E.eq(b['n_jobs'], b0['n_jobs'] + jg.Lin({'NU': 1}, 0)):
+            fails['reopen batch'] = (f'committing an update with NU >= 1 jobs leaves the batch row with (state, time_completed, n_jobs) = ({gotb[0]}, {gotb[1]}, {_show(b["n_jobs"])}); expected (running, NULL, NB + NU)',
+                                     lines.get('batches', r.line))
+        if not E.eq(g['n_jobs'], g0['n_jobs'] + jg.Lin({'SS': 1}, 0)):
+            fails['reopen job groups'] = (f'a job group with staging rows for this update gets n_jobs = {_show(g["n_jobs"])}; expected NG + SS, SS = the sum of n_jobs over ITS staging rows of THIS update '
+                                          '(all instance collections and tokens): the group\'s job count no longer equals the number of its jobs, so it is reported complete too early or never',
+                                          lines.get('job_groups', r.line))
+        elif case.sign(jg.Lin({'SS': 1}, 0)) > 0:
+            gotg = (_show(E.res(g['state'])), _show(E.res(g['time_completed'])))
+            if gotg != ('running', 'NULL'):
+                fails['reopen job groups'] = (f'a job group that receives SS >= 1 new jobs is left with (state, time_completed) = {gotg}; expected (running, NULL)', lines.get('job_groups', r.line))
+        return fails, True
+
+    results = jg.explore(scn.dom, run)
+    n_re = sum(1 for _, (f_, a_) in results if a_)
+    mism = any(k in ('reopen job groups', 'reopen batch') for _, (f_, a_) in results for k in f_)
+    ctx.need(n_re > 0 or mism, 'commit_batch_update: no abstract case commits an update with jobs (commit path not recognised)')
+    first: Dict[str, Tuple[str, str, int]] = {}
+    for case, (fails, _) in results:
+        for k, (msg, ln) in fails.items():
+            first.setdefault(k, (case.describe(), msg, ln))
+    detail = {'abstract_cases': len(results), 'reopening_cases': n_re}
+    for key in ('reopen batch', 'reopen job groups', 'commit once'):
+        if key in first:
+            w, msg, ln = first[key]
+            ctx.bad('R4', f'{cons}::{key}', f'case [{w}]: {msg}', r.file, ln)
         else:
-            exp = ('complete', 500, 2)
-        if got != exp and bad is None:
-            bad = (x['batch_id'], x['job_group_id'], got, exp)
-    gline = r.line
-    for _, st, t_, _n in it.writes:
-        if t_ == 'job_groups':
-            gline = r.line_of(st)
-    ctx.check(bad is None, 'R4', f'{r.file}::commit_batch_update::reopen job groups', (f'after committing update 2 (staged: group 2: 3 jobs, group 1: 3, group 3: 1, root: 5; update 3 and batch 2 have staging rows of '
-              f'their own) group {bad[1]} of batch {bad[0]} has (state, time_completed, n_jobs) = {bad[2]}, expected {bad[3]}: every staged group is re-opened with n_jobs + the sum of its own staging rows of '
-              f'this update, nothing else moves [statements writing job_groups: {jg.jobs_writers(it, "job_groups")}]') if bad else '', r.file, gline)
-    # idempotence of the already-committed path
-    snap = w.snapshot()
-    jg.Interp(prog, w).call('commit_batch_update', {'in_batch_id': 1, 'in_update_id': 2, 'in_timestamp': 2000})
-    same = all(snap[t_] == w.rows[t_] for t_ in ('batches', 'job_groups'))
-    ctx.check(same, 'R4', f'{r.file}::commit_batch_update::commit once', 'calling commit_batch_update again for the already committed update changes batches / job_groups again (n_jobs counted twice: the batch can never complete)',
-              r.file, r.line)
+            ctx.ok('R4', f'{cons}::{key}', detail)
 
 
 READ_SITES = [('batch/batch/front_end/front_end.py', '_get_batch', 'batch'), ('batch/batch/front_end/front_end.py', '_get_job_group', 'group')]
@@ -317,10 +319,10 @@ def r5(ctx: Ctx) -> None:
 
 def run(ctx: Ctx) -> None:
     ctx.explanation = 'Structural check of completion bookkeeping in mark_job_complete / mark_job_group_complete / commit_batch_update and of the API readers.'
-    ctx.rule('R1', 'tallies are incremented for the job\'s group and every ancestor', 1)
+    ctx.rule('R1', 'tallies are incremented for exactly the job\'s group and every ancestor (normal form of the selection), once', 1)
     ctx.rule('R2', 'per terminal state: completed +1 and exactly the matching category +1', 4)
-    ctx.rule('R3', 'completion tests compare n_completed with n_jobs of the same entity, for every ancestor', 6)
-    ctx.rule('R4', 'commit with jobs re-opens the batch and each staged group with the right job counts', 2)
+    ctx.rule('R3', 'completion (abstract execution): every self-or-ancestor group, and the batch, is marked complete iff its own n_completed after counting this job equals its own n_jobs; only with the job\'s terminal transition; the job counts compared are read under a lock', 5)
+    ctx.rule('R4', 'commit (abstract execution): an update with jobs re-opens the batch (+NU) and each staged group (+ the sum of its own staging rows of this update); nothing moves when the call does not commit or the update is empty', 3)
     ctx.rule('R5', 'readers take tallies from the tally table on the entity\'s own key and copy them unmodified', 4)
     prog = sf.load_program()
     r123(ctx, prog)
